@@ -70,7 +70,8 @@ def _cond(r, symbols: Dict[str, int], quote: str, borrowed: Optional[str] = None
     p = symbols[isym]
     return {
         "interest_symbol": isym,
-        "pct": r.choice(["0", "0.01", "1", "7", "12.5", "40"]),
+        # a negative rate (the lender pays) is a legal configuration: interest is still never negative
+        "pct": r.choice(["0", "0.01", "1", "7", "12.5", "40", "7", "1", "-10", "-0.5"]),
         "period_s": r.choice([0, 3600, 86400, 30 * 86400, 365 * 86400]),
         "min": _s(q(D(r.choice(["0", "0", "0.01", "0.5", "3"])), p)),
         "req": r.choice(["0", "0.1", "0.25", "0.5", "1", "2"]),
